@@ -246,9 +246,16 @@ func genC01(r *sim.Rng, c *sim.Case, tier string, idx int) {
 			}
 		}
 		p := r.Intn(2)
-		// a long critical section on a Locker of that provider
+		// a long critical section on a Locker of that provider - or of the other one: what a
+		// provider does to its own attempts when it is shut down must not touch a holder elsewhere
+		hp := p
+		if r.Chance(1, 2) {
+			hp = 1 - p
+			// and answers that take a while, so that attempts are in flight when Shutdown comes
+			c.Knobs["acq_reply_latency_ns"] = int64(sim.Pick(r, lease/100, lease/20))
+		}
 		for ti := range c.Tasks {
-			if int(c.Knobs["locker_"+c.Tasks[ti].Name])%2 == p {
+			if int(c.Knobs["locker_"+c.Tasks[ti].Name])%2 == hp {
 				oi := r.Intn(len(c.Tasks[ti].Ops))
 				if c.Tasks[ti].Ops[oi].K != "sleep" {
 					c.Tasks[ti].Ops[oi].D = int64(lease*3/4) + r.I64n(int64(lease))
